@@ -257,13 +257,16 @@ CLAIMS = {
           "accepted by the reuse check equals the value computed directly from the recorded events whose bucket lies in the window; "
           "qps/avg_rt are the code's float expressions of those sums; qps_previous under the residency condition; leap_new_ok_iff, "
           "checkReuse_iff, checkReuse_tiles: unservable geometries are refused, accepted ones satisfy the read theorem's hypotheses; "
-          "history_sum_eq composes them end to end. Model (Sentinel/LeapArray.lean) tied to leap_array.rs / bucket_leap_array.rs / "
+          "history_sum_eq composes them end to end; max_of_single_bucket_eq / max_concurrency_eq (largest per-bucket total / largest recorded "
+          "concurrency among the window's buckets); count_with_time_resident / _lower / _upper / _eq for the raw is_deprecated filter (nothing older than one interval is "
+          "ever reported, every event of the n newest buckets always is, and the count is exact except for a read exactly on a bucket start at which something was just written). "
+          "Model (Sentinel/LeapArray.lean) tied to leap_array.rs / bucket_leap_array.rs / "
           "sliding_window_metric.rs / metric_bucket.rs by differential execution; the event-list Spec is also evaluated on the implementation's answers."),
     design_ref="DESIGN.md §5.2, §6 C02",
     technique="Lean 4 refinement proof (ring invariant, induction over histories) + differential correspondence + Spec oracle on implementation traces",
     note=NOTE_COMMON + " Guards: timestamps >= one interval (no u64 wrap in end-interval+bucket_len; stamp 0 = never used); bucket length >= 1. "
          "f64 results are compared bit-exactly through an integer soft-float (F64.roundDiv) that is validated against Rust on every run, not proved equal to IEEE-754. "
-         "max_of_single_bucket / max_concurrency / count_with_time are covered by correspondence only (no Spec theorem)."),
+         "The generic read lemma (ring_pred_sum, slot_is_bucket, event_bucket_resident) is in Lemmas/RingMore.lean."),
  "C13": dict(
     category="proof",
     text=("Theorems over every chain (any number of slots, arbitrary/equal order values, any pass/blocked/wait assignment): sorted-permutation "
